@@ -1,4 +1,5 @@
 """C17 — validate always terminates with a verdict, whatever is on disk."""
+import subprocess
 import hashlib, json, os, random, resource, select, shutil, subprocess, time
 from vlib import core, valprop, histprop
 from vlib.core import hx, unhx
@@ -422,6 +423,21 @@ def run(rep, tier, seed, proof_broken=False):
             seen = {o[1] for o in j["objects"]}
             if not {"good0", "good1", "good2"} <= seen:
                 fails.append(("repository validation stopped at the broken object: validated only %s" % sorted(seen), {}))
+        # ---- the command line too: several objects named by path or by id, one in the middle cannot be validated at all
+        # (empty directory, no such object): the others still get their verdict
+        from vlib import core as _core
+        rbin = _core.build_rocfl_bin()
+        os.makedirs(os.path.join(g.root, "hollow"), exist_ok=True)
+        env = dict(os.environ, HOME=g.root + ".home", NO_COLOR="1")
+        os.makedirs(env["HOME"], exist_ok=True)
+        for mode, args in (("paths", ["-p", "good0", "hollow", "good1", "no-such-dir", "good2"]), ("paths-n", ["-n", "-p", "good0", "hollow", "good2"])):
+            p = subprocess.run([rbin, "-r", g.root, "-S", "validate"] + args, stdout=subprocess.PIPE, stderr=subprocess.PIPE, env=env, timeout=120)
+            out = p.stdout.decode("utf8", "replace")
+            rep.evaluations += 1
+            rep.classes.add("cli-multi|%s|rc%d" % (mode, p.returncode))
+            ids_last = valprop.inv_of(os.path.join(g.root, "good2"))["id"]
+            if p.returncode not in (1, 2) or ("Object %s is" % ids_last) not in out:
+                fails.append(("`rocfl validate %s` (exit %d) gives no verdict for the object after the one that cannot be validated: %s" % (" ".join(args), p.returncode, out[-200:].replace("\n", " | ")), {}))
     finally:
         g.close()
         sb.close()
